@@ -189,6 +189,94 @@ def correspondence_poly(ctx, rng, n_obj, n_abel_idx):
     return res
 
 
+# ---- scalar operators on PiecewisePolynomial: whole object and every piece vs the model ----
+
+def correspondence_scalar(ctx, rng, n_obj):
+    """op(P, a) for op in *, num *, *=, /, /=, `/= a; *= a`: func of the whole object and of every piece against
+    vscaleQ k (poly_funcQ ...) (k = a, 1/a or 1, exact rationals), abel at one grid point by Interval."""
+    from abel.tools.polynomial import PiecewisePolynomial
+    qitems = []
+    goals = []
+    tags = []
+    for oi in range(n_obj):
+        n = int(rng.integers(3, 8))
+        g = gen_grid(rng, n)
+        pieces = []
+        for _ in range(int(rng.integers(1, 4))):
+            _, rmin, rmax, c, r0, s, red = gen_poly_args(rng, kmax=4)
+            rmin = _limit(rng, g, -1, g[-1]); rmax = rmin + float(rng.uniform(0.5, g[-1] + 1))
+            if np.any((np.abs(g - rmax) < 1e-3 * max(1, rmax)) & (g != rmax)):
+                rmax += 0.0123
+            pieces.append((g, rmin, rmax, c, r0, s, red))
+        a = float(rng.choice([-4.0, -0.5, 0.25, 2.0, 3.0, 7.0, float(rng.uniform(0.2, 6))]))
+        op = SCALAR_OPS[oi % 6]            # mul, rmul, imul, div, idiv, roundtrip
+        P = PiecewisePolynomial(g.copy(), [(p[1], p[2], p[3].copy(), p[4], p[5], p[6]) for p in pieces])
+        R, _, _ = apply_scalar_op(P, op, a)
+        fa = Fraction(a)
+        k = fa if op in ('mul', 'rmul', 'imul') else (1 / fa if op in ('div', 'idiv') else Fraction(1))
+        kq = '(%d # %d)%%Q' % (k.numerator, k.denominator)
+        sc = [poly_scales(*p) for p in pieces]
+        absk = abs(float(k)) if op != 'roundtrip' else 1.0
+        tag = (op, a, [(p[1], p[2], p[3].tolist(), p[4], p[5], p[6]) for p in pieces], g.tolist())
+        whole = None
+        for j, p in enumerate(pieces):
+            tols = vlib.list_lit([Q(tol_q(absk * v, REL_FUNC * 10)) for v in sc[j][0]]) + '%Q'
+            qitems.append('all_within %s (vscaleQ %s (poly_funcQ %s)) %s' % (tols, kq, poly_call(p), qlist(R.p[j].func)))
+            tags.append(tag + ('piece %d func' % j,))
+            term = 'vscaleQ %s (poly_funcQ %s)' % (kq, poly_call(p))
+            whole = term if whole is None else 'vaddQ (%s) (%s)' % (whole, term)
+        tolw = vlib.list_lit([Q(tol_q(absk * v, REL_FUNC * 10)) for v in sum(x[0] for x in sc)]) + '%Q'
+        qitems.append('all_within %s (%s) %s' % (tolw, whole, qlist(R.func)))
+        tags.append(tag + ('object func',))
+        i = int(rng.integers(0, n))
+        kr = '(%d / %d)' % (k.numerator, k.denominator)
+        for j, p in enumerate(pieces):
+            goals.append((tag + ('piece %d abel[%d]' % (j, i),),
+                          'Lemma sc_%d_%d : Rabs (%s * poly_abelQ_at %s %d - Q2R %s%%Q) <= Q2R %s%%Q.\nProof. evalQ. Qed.'
+                          % (oi, j, kr, poly_call(p), i, Q(float(R.p[j].abel[i])), Q(tol_q(absk * sc[j][1][i], REL_ABEL * 10)))))
+        goals.append((tag + ('object abel[%d]' % i,),
+                      'Lemma sc_%d_w : Rabs (%s * (%s) - Q2R %s%%Q) <= Q2R %s%%Q.\nProof. evalQ. Qed.'
+                      % (oi, kr, ' + '.join('poly_abelQ_at %s %d' % (poly_call(p), i) for p in pieces),
+                         Q(float(R.abel[i])), Q(tol_q(absk * sum(x[1][i] for x in sc), REL_ABEL * 10)))))
+    text = (CASE_HEADER + 'Definition res : list bool := %s.\nEval vm_compute in (count_true res, false_idx 0 res).\n'
+            % vlib.list_lit(qitems))
+    gshard = 8
+    gtexts = []
+    line_of = {}
+    for k0 in range(0, len(goals), gshard):
+        name = 'C10_scal_%03d' % (k0 // gshard)
+        lines = CASE_HEADER.rstrip('\n').split('\n') + ['Open Scope R_scope.']
+        for tg, gl in goals[k0:k0 + gshard]:
+            for ln in gl.split('\n'):
+                lines.append(ln)
+                line_of[(name, len(lines))] = tg
+        gtexts.append((name, '\n'.join(lines) + '\n'))
+    outs = vlib.coq_eval_many([('C10_scalq', text)] + gtexts, timeout=1500)
+    res = dict(q_items=len(qitems), q_ok=0, bad=[], goals=len(goals), g_ok=0, errors=[])
+    rc, out = outs['C10_scalq']
+    r = vlib.parse_eval_lists(out)
+    m = re.match(r'\((\d+), (.*)\)$', r[0]) if (rc == 0 and r) else None
+    if not m:
+        res['errors'].append(('C10_scalq', out[-400:]))
+    else:
+        res['q_ok'] = int(m.group(1))
+        res['bad'] += [tags[i] for i in vlib.parse_nat_list(m.group(2))]
+    for k0, (name, _) in enumerate(gtexts):
+        rc, out = outs[name]
+        chunk = [t for t, _ in goals[k0 * gshard:(k0 + 1) * gshard]]
+        if rc == 0:
+            res['g_ok'] += len(chunk)
+            continue
+        m = re.search(r'File "[^"]*%s\.v", line (\d+)' % name, out)
+        if m and (name, int(m.group(1))) in line_of:
+            tg = line_of[(name, int(m.group(1)))]
+            res['g_ok'] += chunk.index(tg)
+            res['bad'].append(tg)
+        else:
+            res['errors'].append((name, out[-400:]))
+    return res
+
+
 # ---- Angular: exact comparison over Q -------------------------------------
 
 def small_coeffs(rng, n):
@@ -397,17 +485,19 @@ def search(ctx, rng, budget):
                 pos = int(rng.integers(0, len(sr) + 1)) if rng.random() < 0.5 else 0
                 sr.insert(pos, (sr[0][0], sr[0][1], zc, sr[0][3], sr[0][4]))
             run('piecewise_s', (R, C, sr), lambda A, d: 'C10:piecewise_s:' + d.split('[')[0], ('pws', len(sr)))
-            # copies and scalar multiplication
-            kind = ['Polynomial', 'PiecewisePolynomial', 'SPolynomial'][it // 3 % 3]
-            k = float(rng.choice([-3.0, -0.5, 0.25, 2.0, 7.0]))
+            # copies and every scalar operator (*, num *, *=, /, /=, round trips) on every class: whole object and pieces
+            kind = ['Polynomial', 'PiecewisePolynomial', 'SPolynomial', 'PiecewiseSPolynomial'][it // 3 % 4]
+            k = float(rng.choice([-3.0, -0.5, 0.25, 2.0, 7.0, 3.0, float(rng.uniform(0.1, 9)), -float(rng.uniform(0.1, 9))]))
             if kind == 'Polynomial':
                 args = gen_poly_args(rng)
             elif kind == 'PiecewisePolynomial':
                 args = (g, ranges)
+            elif kind == 'SPolynomial':
+                args = gen_spoly_args(rng)
             else:
-                sa2 = gen_spoly_args(rng)
-                args = sa2
-            run('scalar_copy', (kind, args, k), lambda A, d: 'C10:scalar_copy:%s:%s' % (A[0], d), ('sc', kind))
+                args = (R, C, sr)
+            run('scalar_copy', (kind, args, k),
+                lambda A, d: 'C10:scalar_copy:%s:%s' % (A[0], re.sub(r'by -?[0-9.e+-]+|piece \d+', '', d)), ('sc', kind))
         # Angular algebra at random points
         xs = rng.uniform(-1, 1, 5)
         op = ['add', 'sub', 'mul', 'scal', 'cossin', 'legendre', 'outer'][it % 7]
@@ -493,13 +583,17 @@ def run(ctx):
     cp = correspondence_poly(ctx, rng, nq, 2 if ctx.quick else 3)
     ca = correspondence_angular(ctx, rng, 150 if ctx.quick else 1500)
     cg = correspondence_ag(ctx, rng, 2 if ctx.quick else 12)
-    corr_bad = bool(cp['func_bad'] or cp['abel_bad'] or cp['errors'] or ca['bad'] or ca['errors'] or cg['bad'])
-    ctx.cov.update(traces_validated_against_impl=cp['func_ok'] + cp['abel_ok'] + ca['ok'],
+    cs = correspondence_scalar(ctx, rng, 12 if ctx.quick else 90)
+    corr_bad = bool(cp['func_bad'] or cp['abel_bad'] or cp['errors'] or ca['bad'] or ca['errors'] or cg['bad']
+                    or cs['bad'] or cs['errors'])
+    ctx.cov['correspondence_scalar_ops'] = dict(func_checks=cs['q_items'], func_ok=cs['q_ok'], abel_goals=cs['goals'],
+                                                abel_ok=cs['g_ok'])
+    ctx.cov.update(traces_validated_against_impl=cp['func_ok'] + cp['abel_ok'] + ca['ok'] + cs['q_ok'] + cs['g_ok'],
                    correspondence=dict(polynomial_objects=cp['n_obj'], func_ok=cp['func_ok'], abel_goals=cp['abel_goals'],
                                        abel_ok=cp['abel_ok'], angular_cases=ca['n'], angular_ok=ca['ok'],
                                        approx_gaussian_random_tols=cg['tols'], approx_gaussian_goals=cg['goals'],
                                        approx_gaussian_table_goals=n_ag_total, approx_gaussian_table_goals_compiled_this_run=n_ag, angular_sub_variant=variant),
-                   per_instance_goals=cp['abel_goals'] + cg['goals'] + n_ag)
+                   per_instance_goals=cp['abel_goals'] + cg['goals'] + n_ag + cs['goals'])
     # 3. search
     budget = (30 if ctx.quick else 300) * (4 if (broken or corr_bad) else 1)
     hits, n_eval, n_distinct = search(ctx, rng, budget)
@@ -546,6 +640,10 @@ def run(ctx):
                                                           float(objs[oi][2][i])))
         if ca['bad']:
             detail.append('Angular case %r' % (ca['descr'][ca['bad'][0]],))
+        if cs['bad']:
+            detail.append('scalar operator on PiecewisePolynomial (op, a, pieces, grid, part): %r' % (cs['bad'][0],))
+        for e in cs['errors'][:1]:
+            detail.append('coq error in %s: %s' % e)
         if cg['bad']:
             detail.append('ApproxGaussian(tol=%r): a segment goal failed: %s' % cg['bad'][0])
         for e in (cp['errors'] + ca['errors'])[:1]:
